@@ -327,6 +327,21 @@ fn value_of_node(enc: Enc, ty: &Ty, n: &Node, op: Option<Op>) -> Option<String> 
                 }
                 Some(format!("[{}]", items.join(",")))
             }
+            // a fixed-length target on an array that is not longer (Lean `tupVals`, `Fits.tup`): a missing element is
+            // `invalid length`; a longer array has no shared value (the paths differ)
+            Ty::Tuple(ts) => {
+                if matches!(vs.first(), Some(Node::Arr(v)) if v.is_empty()) || matches!(vs.first(), Some(Node::Obj(v)) if v.is_empty()) { return None; }
+                let xs = expand_nodes(vs)?;
+                if xs.len() > ts.len() { return None; }
+                let mut items = vec![];
+                for (i, t) in ts.iter().enumerate() {
+                    let Some(v) = xs.get(i) else { return Some("err:other".into()) };
+                    let x = value_of_node(enc, t, v, None)?;
+                    if is_err(&x) { return Some(x); }
+                    items.push(x);
+                }
+                Some(format!("({})", items.join(",")))
+            }
             // `any` on an array of scalars / arrays / header values, any depth (Lean `anyVal`, `Fits.anyArr`)
             Ty::Any => any_val(enc, n),
             // the empty `{}` read as a map / struct (`Fits.emptyMap` / `emptySt`)
@@ -421,8 +436,13 @@ fn bad(enc: Enc, field_pos: bool, ty: &Ty, n: &Node) -> bool {
             }),
             _ => true,
         },
+        Ty::Tuple(ts) => match n {
+            Node::Arr(vs) => match expand_nodes(vs) { Some(xs) => xs.len() > ts.len() || ts.iter().zip(xs.iter()).any(|(t, x)| bad(enc, false, t, x)), None => true },
+            Node::Obj(_) if empty => false,
+            _ => true,
+        },
         // outside the Lean models' type grammar
-        Ty::Tuple(_) | Ty::Unit => true,
+        Ty::Unit => true,
     }
 }
 
@@ -522,6 +542,15 @@ fn gen_node_ty(rng: &mut Rng, n: &Node, cfg: &TyCfg) -> Ty {
     match n {
         Node::Leaf(l) => gen_leaf_ty(rng, l),
         Node::Obj(fs) => gen_fields_ty(rng, fs, cfg),
+        // a fixed-length target: one type per element (fitting length), one too few (the tape path takes the prefix,
+        // the reader path refuses: finding `tuple-longer-than-target`) or one too many (both refuse)
+        Node::Arr(vs) if vs.len() <= 6 && !vs.iter().any(|v| matches!(v, Node::Mixed(..))) && rng.chance(1, 7) => {
+            let mut ts: Vec<Ty> = vs.iter().flat_map(|v| match v {
+                Node::Header(..) | Node::Rgb(..) => vec![if rng.chance(1, 2) { Ty::Str } else { Ty::Ign }, Ty::Seq(Box::new(Ty::Ign))],
+                other => vec![gen_node_ty(rng, other, cfg)] }).collect();
+            match rng.below(8) { 0 => { ts.pop(); } 1 => ts.push(Ty::Any), _ => {} }
+            Ty::Tuple(ts)
+        }
         Node::Arr(vs) => {
             if vs.iter().all(|v| matches!(v, Node::Leaf(_))) {
                 // element type fitting every element: from the first element when they are alike, else a string
@@ -1419,7 +1448,9 @@ pub fn gen(g: &mut Gen) {
     // 0c. the byte-level witnesses of Lean `C02_mixed_container_paths_differ`, `C02_implicit_eq_first_field_paths_differ`,
     //     `C02_parameter_block_paths_differ` on the real code (each real path against its model; the paths differ)
     for (ty, text) in [("st(a:map(str))", "a={ b=1 c d }"), ("st(a:st(b:opt(map(str));d:opt(str)))", "a={ b{ c=1 } d=2 }"),
-                       ("st(a:str;b:opt(str);c:opt(str))", "a=1 [[x] b=2 ] c=3")] {
+                       ("st(a:str;b:opt(str);c:opt(str))", "a=1 [[x] b=2 ] c=3"),
+                       // Lean `C02_tuple_longer_paths_differ` (finding `tuple-longer-than-target`)
+                       ("st(id:u8;arr:tup(i32;i32))", "id=1 arr={ 1 2 3 }")] {
         let ty = parse_ty(ty).unwrap();
         for (cap, sch) in [(32768usize, "-"), (8, "R1"), (16, "3,1,R5")] {
             emit_pair_with(g, Enc::U, &ty, text.as_bytes(), Some("%"), Some((cap, sch)));
